@@ -46,7 +46,7 @@ RULE = ('C01-grammar scripts (1-3 equations, lags/leads <= 3, parameters, errors
         '(oracle: rejections change nothing, frame per submodel, reads in span; K: Linker.linker_solve_t_M with the generated pass). '
         'Pre-solve setup histories through the public API: one variable\'s whole series assigned to another (model.X = model.Y, '
         'model[\'X\'] = model.Y), one external ndarray assigned to two variables, optionally copy() / reindex() afterwards, then the '
-        'usual calls (the model sees values only: shared storage shows as a cell no equation assigns). Histories: 3-6 steps over up to three instances of one class created at different moments — solve_t calls with '
+        'usual calls (the model sees values only: shared storage shows as a cell no equation assigns). About half of all calls run on objects solved before (status . F E S, iterations >= 0), so a rejected call that touches status / iterations is seen; histories also poison a check cell of a solved period and ask for it again. Histories: 3-6 steps over up to three instances of one class created at different moments — solve_t calls with '
         'independent options (offsets in / just outside the span, both spellings of t), rejected calls, in-place edits of the '
         'instance lists endogenous / check — each call judged and compared on its own, the other instances and the class lists '
         'checked after every step. Syntax variants of the documented grammar: X[+1], X[ -1 ], { a }, < e >, keyword-prefixed names (is_open, Pin, not_X), '
@@ -410,6 +410,10 @@ def cases_for_program(rng, p, tier, heavy=True):
                 elif u < 0.5:
                     so['failures'] = 'raise'
                 h['steps'].append({'op': 'solve_t', 'on': on, 't': t, 'opts': so})
+                if rng.random() < 0.3:
+                    # ... then a check value of that period turns NaN / inf and the same period is asked for again
+                    h['steps'].append({'op': 'poison', 'on': on, 'name': rng.choice(lhs_names), 'pos': pp, 'val': rng.choice(['nan', 'inf', '-inf'])})
+                    h['steps'].append({'op': 'solve_t', 'on': on, 't': rng.choice([t, pp, pp - n]), 'opts': dict(so, errors='raise', min_iter=0, offset=0)})
             cases.append(h)
         # (b'') a linker over two instances of the class: BaseLinker.solve_t at every t, both spellings
         if heavy and n in lens[:2]:
@@ -534,6 +538,19 @@ def cases_for_program(rng, p, tier, heavy=True):
     return cases
 
 
+def with_solved_history(rng, cases):
+    """a good share of ALL calls — the rejected ones above all — run on objects that have been solved before: status is '.', 'F',
+    'E' or 'S' with iterations >= 0 at most periods (a fresh object hides a rejected call that resets status[t] / iterations[t])"""
+    for c in cases:
+        if c['entry'] == 'evaluate' or c['status0'] != ['-'] * c['n'] or rng.random() < 0.45:
+            continue
+        n = c['n']
+        st = [rng.choice(['.', '.', '.', 'F', 'E', 'S', '-']) for _ in range(n)]
+        c['status0'] = st
+        c['iters0'] = [(-1 if x == '-' else rng.randint(0, 9)) for x in st]
+    return cases
+
+
 def exhaustive_programs():
     """all programs of <= 2 equations (left-hand sides Y, then Z) whose right-hand side is `T` or `T op T` over the
     4-name alphabet Y Z X {a} with offsets -1, 0, 1 on the variables (parameter unindexed), op in + *"""
@@ -596,6 +613,24 @@ def fixed_cases():
     for t in (2, -2, 3, -1, 1):
         out.append(base_case(r, 4, d4, 'solve_t', t, max_iter=2))
     out.append(base_case(r, 4, d4, 'solve', 0))
+    # solved before (status '.', iterations >= 0), then a check value at t is NaN / inf: solve_t / solve_period / solve(start=end=t)
+    # under errors='raise' are rejected and NOTHING changes — status[t] and iterations[t] included; likewise the other rejections
+    for bad_value in ('nan', 'inf'):
+        dn = copy.deepcopy(data)
+        dn['Y'][2] = bad_value
+        for mk in (lambda: base_case(p, 4, dn, 'solve_t', 2, max_iter=3), lambda: base_case(p, 4, dn, 'solve_t', -2, max_iter=3),
+                   lambda: dict(base_case(p, 4, dn, 'solve', 0, max_iter=3), start=2, end=2),
+                   lambda: dict(base_case(p, 4, dn, 'solve_period', 2, max_iter=3), span_kind='list', labels=[2000, 2001, 2002, 2003], label=None)):
+            c = mk()
+            c['status0'], c['iters0'] = ['-', '.', '.', 'F'], [-1, 3, 2, 4]
+            out.append(c)
+    for kw in (dict(t=0), dict(t=-4), dict(t=2, offset=2), dict(t=2, offset=-3), dict(t=2, min_iter=4, max_iter=3)):
+        c = base_case(p, 4, data, 'solve_t', kw.pop('t'), **kw)
+        c['status0'], c['iters0'] = ['.', '.', '.', 'S'], [1, 3, 2, 0]
+        out.append(c)
+    c = dict(base_case(p, 4, data, 'solve_period', 0), span_kind='list', labels=[2000, 2001, 2002, 2003], label=1999)
+    c['status0'], c['iters0'] = ['.', '.', '.', '.'], [1, 3, 2, 5]
+    out.append(c)
     # pre-solve setup histories: `model.X = model.Y` (attribute and key form), one external array for two variables, then solve
     for ops in ([{'op': 'attr', 'dst': 'X', 'src': 'Y'}], [{'op': 'key', 'dst': 'X', 'src': 'Y'}], [{'op': 'attr', 'dst': 'Y', 'src': 'X'}],
                 [{'op': 'ext', 'dsts': ['Y', 'X'], 'vals': [lib.fhex(v) for v in (2.0, 3.0, 5.0, 7.0)]}],
@@ -657,7 +692,7 @@ def gen(rng, tier):
     cases = fixed_cases()
     nprog = 24 if tier == 'quick' else 110
     for _ in range(nprog):
-        cases += cases_for_program(rng, gen_prog(rng), tier)
+        cases += with_solved_history(rng, cases_for_program(rng, gen_prog(rng), tier))
     if tier == 'thorough':
         for p in exhaustive_programs():
             cases += cases_for_program(rng, p, tier, heavy=False)
@@ -845,7 +880,10 @@ def impl(case):
             others0 = {k: (em.snapshot(mo, names), [str(x) for x in np.asarray(mo.__dict__['_status'])],
                            [int(x) for x in np.asarray(mo.__dict__['_iterations'])], list(mo.endogenous), list(mo.check))
                        for k, (mo, _) in insts.items() if k != step['on']}
-            if op == 'edit':
+            if op == 'poison':
+                np.asarray(m.__dict__['_' + step['name']])[step['pos']] = float(step['val'])
+                ob = {'op': 'poison', 'ok': True}
+            elif op == 'edit':
                 lst = getattr(m, step['list'])
                 try:
                     if step['action'] == 'append':
